@@ -1,6 +1,8 @@
 import Driver.IdPool
 import Driver.Trie
 import Driver.Dist
+import Driver.AckQueue
+import Driver.Auth
 /-! `waspmodel <domain> [args]` — executes the Lean models on op lines from stdin. -/
 open Driver
 
@@ -18,4 +20,6 @@ def main (args : List String) : IO UInt32 := do
   | ["rettree"] => loop stdin stdout Driver.Trie.stepRet Wasp.Trie.Node.empty; return 0
   | ["match"] => loop stdin stdout Driver.Trie.stepMatch (); return 0
   | ["dist"] => loop stdin stdout Driver.Dist.step {}; return 0
+  | ["ackq"] => loop stdin stdout Driver.AckQueue.step {}; return 0
+  | ["auth"] => loop stdin stdout Driver.Auth.step {}; return 0
   | _ => IO.eprintln "usage: waspmodel <domain>"; return 2
